@@ -312,7 +312,16 @@ fn table_gens(prop: u32, tier: &str, rng: &mut Rng, emit: &mut Emit) {
 }
 
 /// the table components' oversize cases (C18)
-fn table_gens18(_tier: &str, _rng: &mut Rng, _emit: &mut Emit) {}
+fn table_gens18(tier: &str, rng: &mut Rng, emit: &mut Emit) {
+    t_pptt::gen18(tier, rng, emit);
+    t_hmat::gen18(tier, rng, emit);
+    t_rhct::gen18(tier, rng, emit);
+    t_slit::gen18(tier, rng, emit);
+    t_rqsc::gen18(tier, rng, emit);
+    t_rimt::gen18(tier, rng, emit);
+    t_viot::gen18(tier, rng, emit);
+    t_cedt::gen18(tier, rng, emit);
+}
 
 fn main() {
     std::panic::set_hook(Box::new(|info| {
